@@ -1,0 +1,9 @@
+//go:build verif
+
+package blockwise
+
+// VerifTableSizes reports the number of entries in the sending and receiving
+// caches (read-only view for the verification harness; -tags verif only).
+func (b *BlockWise[C]) VerifTableSizes() (sending int, receiving int) {
+	return b.sendingMessagesCache.Length(), b.receivingMessagesCache.Length()
+}
